@@ -278,6 +278,9 @@ func c08Resend(c *Ctx, v *vocab, prop string) {
 	}
 	r.Check(fi.Name+":resend order", bad == nil && nSucc > 0 && nLoop > 0, fi.Decl.Pos(), len(in.Traces), why+fmt.Sprintf(" [success paths %d, resend sends %d]", nSucc, nLoop), c.witness(bad)...)
 	r.Check(fi.Name+":Dup on resent PUBLISH", sawPublish && bad == nil, fi.Decl.Pos(), len(in.Traces), "the resend loop must distinguish *packet.Publish (type assertion / switch) and set Dup=true before sending it")
+	wNo, nIt := iterationWithoutSend(in.Traces, and(callTo(v.bsAll), argConstInt(0, v.outgoing)), or(callTo(v.bSend), callTo(v.connSend)))
+	r.Check(fi.Name+":every stored packet is resent", wNo == nil && nIt > 0, fi.Decl.Pos(), len(in.Traces),
+		"an iteration of the resend loop completes without sending the stored packet (a stored PUBREL or PUBLISH is skipped on resume)", c.witness(wNo)...)
 	// the resend loop iterates over exactly the AllPackets result
 	okRange := false
 	for _, t := range in.Traces {
